@@ -10,6 +10,7 @@
 //   interval <h>                           setInterval; answers r=<getInterval()>
 //   vars <k> <name>*k                      setParametersToDerivate
 //   enable <d1> <d2> <cross>               the three switches; answers r=<the three getters>
+//   en1|en2|enx <0|1>                      one switch alone; answers r=<the three getters>
 //   fnenable <d1> <d2>                     the wrapped function's own analytical-derivative switches (no wrapper)
 //   copy | assign                          the wrapper is replaced by a copy of itself (copy constructor / operator=
 //                                          into a freshly constructed wrapper of the same wrapped function)
@@ -296,6 +297,13 @@ struct Machine {
         return num(w.d2f(v1, v2, pl));
       });
       return a + state();
+    }
+    if (o == "en1" || o == "en2" || o == "enx") {   // one switch alone; answers the three getters
+      bool yn = t.at(1) == "1";
+      if (o == "en1") w.enableFirstOrderDerivatives(yn); else if (o == "en2") w.enableSecondOrderDerivatives(yn); else w.enableSecondOrderCrossDerivatives(yn);
+      const AbstractNumericalDerivative& cw = w;
+      return std::string("ok r=") + (cw.enableFirstOrderDerivatives() ? "1" : "0") + (cw.enableSecondOrderDerivatives() ? "1" : "0")
+        + (cw.enableSecondOrderCrossDerivatives() ? "1" : "0") + state();
     }
     if (o == "get") {
       std::string what = t.at(i++);
